@@ -247,6 +247,34 @@ Definition load_with (envf : assoc -> string -> option string) (tbl : list entry
 Definition load_model := load_with env_of.
 Definition load_spec := load_with env_of_spec.
 
+(* loadFromFile: WHICH file is read.  viper.SetConfigFile(path) reads exactly the path the user selected and
+   takes the format from its extension; ReadInConfig refuses an extension outside viper.SupportedExts (in
+   particular no extension).  When no file is selected, the default ./config.yaml is read if it exists - a file
+   called config.<anything else> in the working directory is not the default file.
+   A selection is (no option given?, extension of the file the user wrote ("" = none), its flattened content).
+   Siblings of the selected file (same directory, same stem, another extension) are deliberately NOT an input
+   of the model: only the selected file counts, whatever lies next to it. *)
+Definition viper_exts : list string :=
+  ["json"; "toml"; "yaml"; "yml"; "properties"; "props"; "prop"; "hcl"; "tfvars"; "dotenv"; "env"; "ini"].
+
+Definition read_file (cwd_default : bool) (ext : string) (filel : assoc) : option assoc :=
+  if cwd_default then Some (if String.eqb ext "yaml" then filel else [])
+  else if existsb (String.eqb ext) viper_exts then Some filel else None.
+
+Definition load_sel_with (envf : assoc -> string -> option string) (tbl : list entry) (penv : assoc)
+           (sel : option (bool * string * assoc)) : option assoc :=
+  match sel with
+  | None => load_with envf tbl penv []
+  | Some (cwd_default, ext, filel) =>
+    match read_file cwd_default ext filel with
+    | Some f => load_with envf tbl penv f
+    | None => None
+    end
+  end.
+
+Definition load_sel_model := load_sel_with env_of.
+Definition load_sel_spec := load_sel_with env_of_spec.
+
 (* ------------------------------------------------------------------------------------------------ *)
 (* DbConfig.Validate *)
 
